@@ -186,7 +186,9 @@ def g_num(rng, d, extra=()):
                 g_num(rng, d - 1, extra), g_num(rng, d - 1, extra)]
     if r < 0.85:
         kws = rng.sample(["k", "m"], rng.choice([0, 1, 2]))
-        return ["call", "<func>f", [g_num(rng, d - 1, extra) for _ in range(rng.choice([0, 1, 2]))],
+        # 'scale' and 'y' are untagged function names; the state also holds VARIABLES called scale and y
+        fn = "<func>f" if rng.random() < 0.8 else rng.choice(["scale", "y"])
+        return ["call", fn, [g_num(rng, d - 1, extra) for _ in range(rng.choice([0, 1, 2]))],
                 {k: g_num(rng, d - 1, extra) for k in kws}]
     if r < 0.93:
         return ["call", "<builtin>norm_2", [["var", rng.choice(ARRS[:2])]], {}]
@@ -208,7 +210,8 @@ def single_state(rng):
             "<p>k": 1.5, "<t>": 0.5, "<dt>": 0.25, "n": rng.choice([1, 2]), "j0": rng.choice([0, 1]),
             "arr": np.array([1.0, 2.0, 3.0, 4.0]), "<state>v": np.array([0.5, 0.25, 4.0, 8.0]),
             "idx": np.array([1, 0, 2, 1]), "<cond>g": rng.random() < 0.7, "<cond>h": rng.random() < 0.7,
-            "only_in_bound": 2, "only_in_sub": 1, "only_in_guard": True, "only_in_time": 0.75}
+            "only_in_bound": 2, "only_in_sub": 1, "only_in_guard": True, "only_in_time": 0.75,
+            "scale": rng.choice([0.5, 2.0])}
 
 
 def gen_single(rng):
@@ -299,7 +302,7 @@ def check_single(stmt, rng, rec):
             tot = tot + float(np.sum(np.asarray(v, dtype=float)))
         return tot
     for si in range(3):
-        interp = NumpyInterpreter(dag, {"<func>f": f})
+        interp = NumpyInterpreter(dag, {"<func>f": f, "scale": f, "y": f})
         st = backends.RecStore()
         st.enabled = False
         interp.context = st
@@ -315,8 +318,11 @@ def check_single(stmt, rng, rec):
             pass
         except Exception as ex:
             if not getattr(type(ex), "_vf_program_error", False):
+                # the statement could not be carried out in this state; what it read before stopping was read
                 st.enabled = False
                 rec.undef("handbuilt-" + type(ex).__name__)
+                judge(stmt, {n for (_, k, n) in st.log if k == "r"}, set(), rec,
+                      dict(wit, state=si, stopped_with=type(ex).__name__))
                 continue
         st.enabled = False
         reads = {n for (_, k, n) in st.log if k == "r"}
